@@ -50,13 +50,16 @@ func CombineFromNextProtos(prefix string, chunks []string) (string, error) {
 	for _, chunk := range chunks {
 		// Strip that and the number
 		if strings.HasPrefix(chunk, prefix) {
+			// Strip the chunk number, which runs up to the first hyphen: it is
+			// written with at least two digits but has three once there are
+			// 100 or more chunks. Chunks come from the remote side's
+			// ClientHello; one without a chunk number is malformed.
 			rest := strings.TrimPrefix(chunk, prefix)
-			if len(rest) < 3 {
-				// Chunks come from the remote side's ClientHello; one that is
-				// too short to hold the chunk number is malformed
+			sep := strings.IndexByte(rest, '-')
+			if sep < 2 {
 				return "", fmt.Errorf("(%s) malformed chunk %q", op, chunk)
 			}
-			ret += rest[3:]
+			ret += rest[sep+1:]
 		}
 	}
 	return ret, nil
